@@ -311,7 +311,10 @@ def load_known():
 
 def write_evidence(pid, tier, seed, level, coverage, wall, violations, assumptions):
     evid = EVID
-    if os.environ.get("VERIF_REPO"):
+    if os.environ.get("VERIF_EVIDENCE_DIR"):
+        # smoke runs that must not replace the committed evidence
+        evid = os.environ["VERIF_EVIDENCE_DIR"]
+    elif os.environ.get("VERIF_REPO"):
         # a development run against another checkout (seeded changes): never into the committed evidence directory
         evid = os.path.join(VERIF, "run", "evidence-alt")
     os.makedirs(evid, exist_ok=True)
